@@ -313,3 +313,8 @@ func init() {
 func init() {
 	prop("C07", "C17-R1") // an index kind whose UpdateEntry cannot return leaves index and table apart after any update
 }
+
+func init() {
+	prop("C02", "C02-R6")
+	prop("C10", "C02-R6")
+}
